@@ -198,6 +198,9 @@ func (c *AbstractTokenizer) ReadNextToken() *Token {
 
 	for true {
 		verifLoopHook(c.Scanner, &verifIteration)
+		// A token skipped by the previous iteration must not be seen again
+		token = nil
+
 		// Read character
 		nextChar := c.Scanner.Peek()
 
